@@ -97,10 +97,23 @@ func main() {
 				}
 			}
 		case *ast.RangeStmt:
-			if len(sorts) > 0 && x.Key != nil && x.Value == nil && x.Tok == token.DEFINE && sorts[exprText(x.X)] {
-				x.Value = x.Key
+			if len(sorts) > 0 && x.Key != nil && x.Tok == token.DEFINE && sorts[exprText(x.X)] {
+				orig := x.X
+				key := x.Key
+				if id, ok := key.(*ast.Ident); ok && id.Name == "_" {
+					return true // value-only iteration: nothing to sort by
+				}
+				if x.Value != nil {
+					if id, ok := x.Value.(*ast.Ident); !ok || id.Name != "_" {
+						// v := m[k] as first statement of the body
+						as := &ast.AssignStmt{Lhs: []ast.Expr{x.Value}, Tok: token.DEFINE,
+							Rhs: []ast.Expr{&ast.IndexExpr{X: orig, Index: ast.NewIdent(key.(*ast.Ident).Name)}}}
+						x.Body.List = append([]ast.Stmt{as}, x.Body.List...)
+					}
+				}
+				x.Value = key
 				x.Key = ast.NewIdent("_")
-				x.X = &ast.CallExpr{Fun: &ast.SelectorExpr{X: ast.NewIdent("verifsim"), Sel: ast.NewIdent("SortedKeys")}, Args: []ast.Expr{x.X}}
+				x.X = &ast.CallExpr{Fun: &ast.SelectorExpr{X: ast.NewIdent("verifsim"), Sel: ast.NewIdent("SortedKeys")}, Args: []ast.Expr{orig}}
 				changed++
 			}
 		}
